@@ -34,23 +34,28 @@ PROPS = ["Ptk.Props.C07"]
 TECHNIQUE = "Lean 4 proof over an executable model + differential correspondence + property oracle"
 LEVEL_TEXT = ("Lean 4 theorems over an executable model of Buffer.save_to_undo_stack / undo / redo / reset and of the "
               "command boundary of KeyProcessor._call_handler (is_repeat, save_before): for every session (any handler "
-              "bodies, any save_before rules) the undo stack is a subsequence of the log of states held at command "
-              "boundaries, every undo restores such an earlier state with a different text, successive undos walk "
-              "the log backwards, repeated undo reaches the initial text, a run of one repeat-grouped handler is undone "
-              "as one group, redo after undo restores (text, cursor) exactly (also n-fold), every saving edit empties "
-              "the redo stack; the model is tied to /repo on every run by a differential correspondence (bare Buffer "
-              "API, exhaustive small scope + random; real PromptSession key processor in emacs and vi mode) and the "
-              "property oracle on the real objects")
+              "bodies, any save_before rules, any initial document) the undo stack is a subsequence of the log of "
+              "(text, cursor) states held at command boundaries, every undo restores such a strictly earlier state with "
+              "a different text, successive undos walk the log backwards, repeated undo reaches the initial text, a run "
+              "of one if_no_repeat handler (also followed by motions / Escape) is undone as one group, redo after undo "
+              "restores (text, cursor) exactly (also n-fold, and undo after redo), every editing command leaves the "
+              "redo stack empty, snapshots stay valid documents; hypothesis-free instances for the shipped emacs and "
+              "Vi bindings of a fully modelled key set; the model is tied to /repo on every run by a differential "
+              "correspondence (bare Buffer API; real PromptSession key processor in emacs and vi mode with observed "
+              "handler bodies; fully modelled emacs and vi key sets) and the property oracle on the real objects")
 LEVEL_NOTE = ("trusted: Lean kernel, axioms propext/Classical.choice/Quot.sound only; the hand-written model "
-              "(validated by the correspondence, not proved equal to the Python); handler bodies other than "
-              "undo/redo are parameters (their observed result is fed to the model)")
+              "(validated by the correspondence, not proved equal to the Python); in the 'keys' cases handler bodies "
+              "other than undo/redo are parameters (their observed result is fed to the model), in the 'ekeys'/'vkeys' "
+              "cases the model predicts everything from the key names alone")
 RULE = ("api: every sequence over {save(1), save(0), ins a, ins b, backspace, cursor=0, undo, redo} up to the tier's "
         "length from two initial documents, every sequence of save-then-edit commands/undo/redo up to the tier's "
-        "length, then seeded random sequences (<= 40 calls incl. reset, text/cursor setters, unicode); keys: every "
-        "key sequence up to the tier's length over a small emacs and a small vi alphabet (incl. undo keys, a redo "
-        "binding, custom bindings with if_no_repeat / only-on-repeat rules), then seeded random sessions (<= 40 "
-        "keys over ~70 emacs / ~60 vi key tokens, single and multi line, with history); a case is non-trivial when "
-        "at least one undo or redo changed the buffer")
+        "length, then seeded random sequences (<= 40 calls incl. reset, text/cursor/document setters, unicode); keys: "
+        "every key sequence up to the tier's length over a small emacs and a small vi alphabet (incl. undo keys, a redo "
+        "binding, custom bindings with if_no_repeat / only-on-repeat rules), then seeded random sessions (<= 40 keys "
+        "over ~70 emacs / ~60 vi key tokens, single and multi line, with history, macros, counts, paste, with tails of "
+        "repeated undo/redo); ekeys/vkeys: every sequence up to the tier's length over the fully modelled emacs / vi "
+        "key sets, then random ones (<= 30 keys, multi-line and wide characters); a case is non-trivial when at least "
+        "one undo or redo changed the buffer")
 EXHAUSTIVE = True
 EXHAUSTIVE_SCOPE = {
     "quick": "api: all sequences len<=4 over 8 calls x 2 initial docs, all command sequences len<=4 over 7 commands; "
@@ -63,18 +68,25 @@ EXHAUSTIVE_SCOPE = {
                 "{i, a, x, u, escape, redo}"}
 TRUSTED = ["harness/c07.py observes every KeyProcessor._call_handler call by wrapping the bound method on the instance "
            "(the real method runs unchanged inside) and counts Buffer.undo()/redo()/save_to_undo_stack() calls the same way",
-           "the save_before rule of a binding is read by calling binding.save_before on two stub events (is_repeat False/True)",
-           "Ptk/Model/C07.lean is a hand translation of buffer.py undo machinery and _call_handler (correspondence-checked)"]
+           "the save_before rule of a binding is read by calling binding.save_before on two stub events (is_repeat False/True); "
+           "in the ekeys/vkeys cases the rules and handler identities are the static tables of the Lean model instead",
+           "Ptk/Model/C07.lean is a hand translation of buffer.py undo machinery, _call_handler, _fix_vi_cursor_position and of "
+           "11 emacs / 6 vi key handlers (correspondence-checked)"]
 ASSUMPTIONS = ["CPython list append/pop and str equality semantics",
                "one focused buffer per session (keys that move the focus to the search/system buffer are not generated)",
-               "handler bodies are parameters: the model is told the (text, cursor) a non-undo handler produced",
-               "snapshots satisfy cursor <= len(text) (proved for the model: snapshots_valid), so Document() never asserts in undo/redo"]
-PARTIAL_SCOPE = ["exceptions raised by handlers (KeyProcessor.reset() on error) and read-only buffers are not modelled",
+               "in 'keys' cases handler bodies are parameters: the model is told the (text, cursor) a non-undo handler produced",
+               "snapshots satisfy cursor <= len(text) (proved for the model: snapshots_valid), so Document() never asserts in undo/redo",
+               "a session = one Buffer.reset(); accept / abort (which reset the buffer) start a new session and are not generated"]
+PARTIAL_SCOPE = ["exceptions raised by handlers (KeyProcessor.reset() on error) and read-only buffers are not modelled "
+                 "(a read-only buffer's undo() pops the stack and then raises EditReadOnlyBuffer)",
                  "several buffers / focus changes (search, system prompt) are not modelled: save_before acts on app.current_buffer",
-                 "Vi 'u' with a count is modelled as n Buffer.undo() calls in one command; there is no redo binding in the "
-                 "library (redo is driven through the Buffer API and a harness-defined binding)",
+                 "Vi 'u' with a count is modelled as n Buffer.undo() calls in one command (theorems: Body.undo n); there is no redo "
+                 "binding in the library (redo is driven through the Buffer API and a harness-defined binding)",
                  "KeyBindings caches that re-create Binding objects when bindings are added at run time (is_repeat is identity "
-                 "based) are outside the sessions generated here"]
+                 "based) are outside the sessions generated here",
+                 "the hypothesis-free theorems cover the fully modelled key sets only; for all other bindings the general "
+                 "theorems apply under WF (handler kind fixed per binding, editing bindings save when not a repeat), which the "
+                 "correspondence observes on every generated session but does not prove for the whole binding table"]
 
 GROUP_SIG = "undo after run of repeated char insert/delete | run not undone as one group"
 
